@@ -338,6 +338,25 @@ func runC06(cx *CheckCtx) {
 				ct := tb.Term(tb.root, coll)
 				okColl = ct.Op == "find" && ct.Args[0] == tb.constBytes("e")
 			}
+			// what is compared is the contract part of the stored key: 'e'‖index(1)‖contract, scanned
+			// with the family prefix removed, so the contract starts at byte 1 of the item
+			if okM && okColl && memIf != nil {
+				okPart := false
+				x, y, isEq := isEqualityCall(memIf.Cond)
+				if isEq {
+					for _, v := range []ssa.Value{x, y} {
+						t := tb.Term(tb.root, v)
+						if t.Op == "slice" && len(t.Args) == 3 && t.Args[0].Op == "iterval" {
+							lo, isC := t.Args[1].IntConst()
+							fl, isF := t.Args[0].Args[0].Args[1].IntConst()
+							ps := keyParts(put.Args[1])
+							// RemovePrefix strips the constant family; the put key is family ‖ byte ‖ contract
+							okPart = isC && isF && fl&2 != 0 && t.Args[2].Op == "none" && len(ps) == 3 && ps[1].Op == "byte" && lo == 1
+						}
+					}
+				}
+				cx.decide(okPart, "subscribe", "netmap.SubscribeForNewEpoch/compared-part", "the stored item is compared from byte 1 on (after the one-byte index)", "the subscriber test does not compare the contract part of the stored key: a subscribed contract is not recognised and is stored again", where)
+			}
 			cx.decide(okM && okColl, "subscribe", "netmap.SubscribeForNewEpoch/dedup", "the write is reached only after the contract was compared with every stored subscriber and found different", "a contract that is already subscribed can be stored again (the comparison with stored subscribers does not dominate the write): it would be called twice per tick", where)
 			checkNotifyEquiv(cx, a, "netmap.SubscribeForNewEpoch/NewEpochSubscription", notif, put)
 		}
@@ -984,6 +1003,29 @@ func runC08(cx *CheckCtx) {
 			}
 		}
 		cx.decide(okAdv, "ring-index", "netmap.NewEpoch/advance", "the ring index becomes (current + 1) % count", "a tick does not advance the ring by exactly one slot modulo the stored count: Snapshot(diff) reads (current − diff + count) % count and answers with another epoch's map", w.pos(m.Fn.Pos()))
+	}
+	// snapshotByEpoch(e) = snapshot(current epoch − e)
+	if m := cx.method("netmap", "SnapshotByEpoch"); m != nil {
+		a := cx.run(m)
+		tb := a.tb
+		ok := false
+		for _, s := range a.Sites(func(s *Site) bool { return s.Inlined && s.Ctx.parent == nil && len(s.Args) == 1 }) {
+			d := a.Canon(s.In, s.Args[0])
+			if d.Op == "sum" && len(d.Args) == 2 {
+				var cur *Term
+				for _, x := range d.Args {
+					if x.Op == "read" {
+						cur = x
+					}
+				}
+				if cur != nil {
+					if k, _ := cur.Args[0].BytesConst(); k == "snapshotEpoch" && d == tb.binop(token.SUB, cur, paramTerm(tb, m, "epoch"), intType) {
+						ok = true
+					}
+				}
+			}
+		}
+		cx.decide(ok, "ring-index", "netmap.SnapshotByEpoch", "asks for the snapshot (stored epoch − epoch) ticks back", "snapshotByEpoch(e) does not translate the epoch into 'current epoch − e' ticks back", w.pos(m.Fn.Pos()))
 	}
 	// the per-epoch list: writer, reader and dropper use one fixed-width epoch encoder
 	writeEnc := ""
